@@ -1482,7 +1482,9 @@ class FlowIR(object):
 
         def aggregate(string):
             # type: (str) -> str
-            for ref in refs_to_replicate:
+            # VV: Replace the longest references first (like compile_component_replica does) so that "Sim:ref" is not
+            #     replaced inside "PreSim:ref" when both producers are replicated
+            for ref in sorted(refs_to_replicate, key=lambda name: len(name), reverse=True):
                 # This re will find references followed by paths
                 # If ref is followed by a path then we have to replicate the path everywhere
                 # e.g. Component:ref/file.txt -> Component1:ref/file.txt Component2:ref/file.txt etc
